@@ -86,8 +86,9 @@ def extra(tier, seed):
              'define_variable, scale_column x2, panel, extract_rows x5) on 4 tables, length <= 1 on the others, 250 random sequences of '
              'length 3; all observers (count, sample_*, split 2/3/4 slices with/without groups, flatten) after the last operation'
              if tier == 'quick' else
-             'as quick, with ALL sequences of length <= 3 on 4 tables and <= 2 on the others, 200 generated tables, 4000 random sequences '
-             'of length 3, 40 tables of 40 rows / 7 groups')
+             'as quick, with ALL sequences of length <= 3 on 3 tables (default, duplicate, every-label-twice index) and <= 2 on the other 7, '
+             '200 generated tables (sequences of length <= 1), 4000 random sequences of length 3, 40 tables of 40 rows / 7 groups with '
+             '5 fixed sequences each')
     t0 = time.time()
     try:
         d, raw = _run_native(tier, seed, 300 if tier == 'quick' else 3000)
